@@ -24,7 +24,7 @@ var probeNames = []string{"query_present", "query_with_slash", "query_with_track
 	"userinfo_present", "ipv6_authority", "hostname_authority", "record_variant", "control_relative", "control_absolute",
 	"control_query_style", "control_leading_slash", "content_base_absent", "session_level_control", "setup_subset_or_permuted",
 	"script_completed", "media_identity_checked", "keepalive_observed", "authenticated_retry", "raw_path_kept", "udp_transport",
-	"control_empty_or_star", "base_other_host", "content_base_relative", "request_lines_checked", "tunnel_http", "tunnel_ws"}
+	"control_empty_or_star", "base_other_host", "content_base_relative", "request_lines_checked", "tunnel_http", "tunnel_ws", "back_channel_in_stream"}
 
 func us(n int) time.Duration { return time.Duration(n) * time.Microsecond }
 
@@ -276,6 +276,13 @@ func runLib(w *sys.World, sc *Scenario, summary *map[string]any) {
 	}
 
 	desc := mkDesc(sc.Medias, sc.SamePT)
+	plain := append([]*description.Media(nil), desc.Medias...) // what a client that asks for no back channel is offered
+	if sc.HasBack && sc.Variant == "play" {
+		a := &format.G711{PayloadTyp: 8, MULaw: false, SampleRate: 8000, ChannelCount: 1}
+		back := &description.Media{Type: description.MediaTypeAudio, IsBackChannel: true, Formats: []format.Format{a}}
+		desc.Medias = append(desc.Medias[:sc.BackAt:sc.BackAt], append([]*description.Media{back}, desc.Medias[sc.BackAt:]...)...)
+		w.Probe("back_channel_in_stream")
+	}
 	var stream *gortsplib.ServerStream
 	if sc.Variant == "play" {
 		stream = &gortsplib.ServerStream{Server: srv, Desc: desc}
@@ -408,7 +415,7 @@ func runLib(w *sys.World, sc *Scenario, summary *map[string]any) {
 				w.Fail("c20/api-error describe", "described %d medias, the stream has %d", len(d.Medias), sc.Medias)
 				return
 			}
-			ref := func(*gortsplib.ServerSession) []*description.Media { return desc.Medias }
+			ref := func(*gortsplib.ServerSession) []*description.Media { return plain }
 			if sc.setupAll() {
 				if err := c.SetupAll(d.BaseURL, d.Medias); err != nil {
 					fail("setup", err)
@@ -445,7 +452,7 @@ func runLib(w *sys.World, sc *Scenario, summary *map[string]any) {
 			})
 			writeAll := func(phase, n int) {
 				for k := 0; k < n; k++ {
-					for i, m := range desc.Medias { // also medias that were not set up
+					for i, m := range plain { // also medias that were not set up
 						stream.WritePacketRTP(m, mkPacket(m.Formats[0].PayloadType(), i, phase, k)) //nolint:errcheck
 					}
 					time.Sleep(us(500))
